@@ -55,8 +55,8 @@ def cube_rotations():
 @st.composite
 def unit_vectors(draw):
     # constructive: draw z in [-1,1] and azimuth
-    z = draw(st.floats(-1, 1, allow_nan=False, width=32))
-    phi = draw(st.floats(0, 2 * math.pi, allow_nan=False, width=32))
+    z = draw(st.floats(-1, 1, allow_nan=False))
+    phi = draw(st.floats(0, 2 * math.pi, allow_nan=False))
     r = math.sqrt(max(0.0, 1 - z * z))
     return [z, r * math.sin(phi), r * math.cos(phi)]
 
